@@ -249,6 +249,21 @@ impl Engine {
                 let overwrite = matches!(op, Op::CreateStream { .. });
                 let opk = if overwrite { "create_stream" } else { "create_new_stream" };
                 let r = self.resolve(p);
+                if !self.stale.is_empty() && self.op_index >= self.stale_since + 4 {
+                    // old stale handles are closed first (their slot is free or a storage's)
+                    for h in std::mem::take(&mut self.stale) {
+                        guard("h_close_stale", move || drop(h))?;
+                    }
+                    self.trace.push("(stale handles dropped)".into());
+                }
+                if !self.stale.is_empty() {
+                    // no stream is created while a handle of a removed stream is alive: which
+                    // object such a handle means once its directory slot holds a stream again
+                    // is not specified
+                    self.stats.excluded += 1;
+                    self.trace.push(format!("(skipped {}({:?}): a stale handle exists)", opk, r.show()));
+                    return Ok(());
+                }
                 if let NormPath::Ok(names) = &r.norm {
                     if self.handle_on(names).is_some() {
                         self.stats.excluded += 1;
@@ -292,6 +307,15 @@ impl Engine {
             Op::RemoveStream { p } => {
                 let r = self.resolve(p);
                 if let NormPath::Ok(names) = &r.norm {
+                    if let (true, Some(slot)) = (self.oracles.stale_handles, self.handle_on(names)) {
+                        // the handle is detached and kept: from now on it must touch nothing
+                        let h = self.handles[slot].take().unwrap();
+                        self.own_writes[slot].clear();
+                        self.trace.push(format!("(h{} on {:?} becomes stale[{}]{})", slot, r.show(), self.stale.len(), if h.dirty { ", with unflushed bytes" } else { "" }));
+                        self.stale.push(h.stream);
+                        self.stale_since = self.op_index;
+                        self.stats.bump("handle_made_stale");
+                    }
                     if self.handle_on(names).is_some() {
                         self.stats.excluded += 1;
                         self.trace.push(format!("(skipped remove_stream({:?}): open handle on it)", r.show()));
